@@ -29,6 +29,10 @@ func c01ExpectedSpec(c c01Case) ref.Spec {
 		PhoneBCD: c.Src.Phone, Serial: c.PlatSerial, Body: c.Body}
 }
 
+// c01OtherFrame: a valid frame of another terminal whose phone, serial and body all need escaping.
+var c01OtherFrame = ref.Spec{ID: 0x0200, Version2019: true, VersionByte: 1, PhoneBCD: []byte{0x7e, 0x7d, 0x13, 0x91, 0x11, 0x12, 0x22, 0x27, 0x7d, 0x7e}, Serial: 0x7e7d,
+	Body: []byte{0x7d, 0x7e, 0x7d, 0x01, 0x7e, 0x02, 0xaa, 0x7d, 0xbb, 0x7e, 0xcc, 0x7d, 0x7d, 0x7e, 0x7e, 0x11, 0x22, 0x33, 0x44, 0x55, 0x66, 0x77, 0x88, 0x99}}.Build()
+
 func genC01(t *rapid.T) c01Case {
 	c := c01Case{}
 	c.Src = genSpec(t, "src", rapid.IntRange(0, 40).Draw(t, "src_bodylen"))
@@ -64,6 +68,11 @@ func checkC01(c c01Case, _ *kit.Collector) kit.Result {
 	}
 	h := msg.Header
 	srcPhone, srcVer := h.TerminalPhoneNo, h.ProtocolVersion
+	// the header is kept while other traffic is decoded (another terminal's escaped frame), as a server does
+	if err := jt808.NewJTMessage().Decode(append([]byte(nil), c01OtherFrame...)); err != nil {
+		res.Err = kit.Fail("HARNESS-ERROR other frame rejected: %v", err)
+		return res
+	}
 	h.ReplyID = c.ReplyID
 	h.PlatformSerialNumber = c.PlatSerial
 	body := append([]byte(nil), c.Body...)
